@@ -2,7 +2,7 @@
 import re
 from ..facts import Program, loc
 from ..run import Check, AnalysisBroken
-from ..rules import r4_own, r9_sibling, ledger
+from ..rules import r4_own, r9_sibling, ledger, r5_grow, r6_wspace
 
 DUNITS = None   # R9: whole SRC + FORTRAN
 
@@ -42,7 +42,8 @@ def run(tier):
         'R4: path-sensitive ownership analysis of every function of SRC, FORTRAN/c_fortran_?gssv.c and EXAMPLE/dreadtriple_noheader.c: '
         'each block obtained from the allocation vocabulary (superlu_malloc and everything that returns or stores a fresh block, by '
         'bottom-up summaries) must be released or handed to the caller exactly once on every return exit; no double release, no use '
-        'after release; contents created inside local objects (sp_preorder -> AC, ?Create_*_Matrix, StatInit, getata/at_plus_a out-'
+        'after release; R5: every append to the four growable arrays is capacity-checked (post-check `>=`, pre-check in a loop) and aliases are '
+        're-read after a possible move; R6: workspace allocator bookkeeping, NULL honoured, release matches acquisition; contents created inside local objects (sp_preorder -> AC, ?Create_*_Matrix, StatInit, getata/at_plus_a out-'
         'parameters) must be destroyed; correlated guards, NULL tests and flag variables are tracked so that guarded allocate/free pairs '
         'are exact. R9: s=d and c=z instantiations of every routine agree (the only static handle on subscript arithmetic). Decides: '
         'leak / double free / use-after-free on every exit path, for all inputs. Does NOT decide: subscript ranges inside the kernels, '
@@ -60,6 +61,11 @@ def run(tier):
         if nalloc < 250:
             raise AnalysisBroken('C19: only %d allocation sites seen (floor 250)' % nalloc)
         chk.notes.append('%s: %d functions, %d allocation sites' % (cfgname, nfun, nalloc))
+        ns, nc = r5_grow.run(chk, 'R5', prog, cfgname)
+        if ns < 56 or nc < 60:
+            raise AnalysisBroken('C19: %d expansion call sites / %d possibly-expanding calls; floors 56 / 60' % (ns, nc))
+        if r6_wspace.run(chk, 'R6', prog, cfgname) < 32:
+            raise AnalysisBroken('C19: workspace allocator routines not found')
         nd = ledger.run(chk, prog, 'R4.ledger', cfgname)
         if nd < 6:
             raise AnalysisBroken('C19: only %d Destroy_* routines found (floor 6)' % nd)
